@@ -262,6 +262,14 @@ func plainText(st, form int) string {
 		case 2:
 			return "grep -q x /nonexistent-verif 2>/dev/null"
 		}
+	case 7:
+		// commands that read the hook's standard input (the operator starts hooks with stdin at /dev/null)
+		if st == 0 {
+			return "cat >/dev/null"
+		}
+		if st == 1 {
+			return "read -r __verif_line"
+		}
 	case 6:
 		if st == 0 {
 			return ":"
@@ -1062,7 +1070,7 @@ func randomInput(r *core.Rng) Input {
 
 // ---- handler bodies ----
 
-const nForms = 7
+const nForms = 8
 
 func plain(st, form int) Cmd { return Cmd{Op: "plain", St: []int{st}, Form: []int{form}} }
 
